@@ -47,7 +47,7 @@ def check_c18(pid, tier, seed, replay=None):
     t0 = time.time(); rng = random.Random(seed); q = tier == 'quick'
     shutil.rmtree(os.path.join(vlib.BUILD, 'run', 'C18'), ignore_errors=True)
     bindir = vlib.build('asan')
-    mc, problems, scheds = model_and_schedules(seed, 40 if q else 600)
+    mc, problems, scheds = model_and_schedules(seed, 40 if q else 3000)
     scheds = structured_schedules(rng) + scheds
     extra_viol = []
     for kind, name, txt in problems:
@@ -75,7 +75,7 @@ def check_c18(pid, tier, seed, replay=None):
     tsan_note = None
     try:
         tb = vlib.build('tsan')
-        name = 'tsan-free'; reps = 3 if q else 40
+        name = 'tsan-free'; reps = 3 if q else 150
         scns.append(Scn(name, ['solo', f'free {reps}'], 'tsan-free-running', budget=600))
         env = {'TSAN_OPTIONS': 'exitcode=66:halt_on_error=1:report_signal_unsafe=0', 'ASAN_OPTIONS': ''}
         done.append((('tsan', name, None, None), run_one(tb, 'insth', ['prepare', scns[-1].text()], name, env=env, timeout=900)))
